@@ -357,6 +357,9 @@ def run(ctx: Ctx) -> None:
             rep.ok("C04.R3", c.qname, desc, c.module.relpath)
         else:
             rep.bad("C04.R3", c.qname, desc, c.module.relpath, [f"written {[show(t) for t in puts]}", f"read {[show(t) for t in heads]}"], "dbfs", what="DBFS redirect record written where fetch_paths does not read")
+    if ctx.report.prop == "C04":
+        from .common import share_rules as _share8
+        _share8(ctx, "C01", "C04.R15", ['C01.R5'], 'the key under which a nested keep stores its result is the key the evaluation resolved for the path (no other value reaches store_blob): else the path is committed to a key that has no blob and keeps serving its previous content')
 
 
 def _dict_attr(f: Func, store: bool) -> Optional[str]:
